@@ -271,18 +271,21 @@ pub fn parse(input: &str, notation: Notation) -> Result<Term, ParseError> {
 
 #[doc(hidden)]
 pub fn fold_exprs(exprs: &[Expression]) -> Result<Term, ParseError> {
-    let mut depth = 0;
     let mut output = Vec::new();
 
-    for expr in exprs.iter() {
+    for (i, expr) in exprs.iter().enumerate() {
         match *expr {
-            Abstraction => depth += 1,
+            Abstraction => {
+                // an abstraction extends as far to the right as possible
+                output.push(abs(fold_exprs(&exprs[i + 1..])?));
+                break;
+            }
             Variable(i) => output.push(Var(i)),
             Sequence(ref exprs) => output.push(fold_exprs(exprs)?),
         }
     }
 
-    Ok(abs!(depth, fold_terms(output)?))
+    fold_terms(output)
 }
 
 fn fold_terms(mut terms: Vec<Term>) -> Result<Term, ParseError> {
